@@ -111,7 +111,7 @@ def main():
 
 
 NA = {}
-APPROVED = ["C11", "C03", "C05", "C06", "C09", "C01", "C13", "C07", "C19", "C15", "C14", "C20", "C12", "C08", "C04", "C17"]
+APPROVED = ["C11", "C03", "C05", "C06", "C09", "C01", "C13", "C07", "C19", "C15", "C14", "C20", "C12", "C08", "C04", "C17", "C18"]
 
 if __name__ == "__main__":
     main()
